@@ -1,6 +1,8 @@
 import ChythonModel.Model.C20Bridge
 import ChythonModel.Spec.RdkitConvention
 import ChythonModel.Props.C12
+import ChythonModel.Proofs.C20Parity
+import ChythonModel.Proofs.C20Graph
 /-!
 # C20 — RDKit bridge preserves structure and configuration in both directions
 
@@ -12,7 +14,7 @@ RDKit is a black box: its conventions enter as the explicit functions of `Spec/R
 set_option linter.unusedSimpArgs false
 namespace ChythonModel.Props.C20
 open ChythonModel.Gen ChythonModel.Gen.C20 ChythonModel.Spec ChythonModel.Model ChythonModel.Model.Stereo
-open ChythonModel.Model.C20 ChythonModel.Proofs.C12 ChythonModel.Props.C12
+open ChythonModel.Model.C20 ChythonModel.Proofs.C12 ChythonModel.Props.C12 ChythonModel.Proofs.C20
 
 /-! ## 1. bond-type maps -/
 
@@ -60,5 +62,335 @@ theorem reading_agrees_spec :
     (∀ t : RdStereo, (t == stereoCis || t == stereoTrans) = true → ((t == stereoCis) = true ↔ t = Rdkit.stereoOfCis true)) ∧
     chiralCw ≠ chiralCcw ∧ stereoCis ≠ stereoTrans := by
   refine ⟨?_, ?_, by decide, by decide⟩ <;> intro t <;> cases t <;> decide
+
+/-! ## 3. atom attribute transfer -/
+
+/-- chython → RDKit → chython on one atom.  `k` = implicit hydrogens RDKit adds on its own (0 on valence-valid input —
+recorded assumption): isotope, charge, radical flag and atom number (as `parsed_mapping`) come back unchanged, the
+hydrogen count comes back as `h + k`; the stereo label travels separately (tags). -/
+theorem from_to_atom (keep : Bool) (n : Nat) (a : Atom) (h : Nat) (row : ElemRow) (k : Nat)
+    (hH : a.implH = some h) (hrow : rowOf a.z = some row)
+    (hiso : ∀ i, a.isotope = some i → i ≠ 0 ∧ row.dist.any (·.1 == i) = true)
+    (hch : -4 ≤ a.charge ∧ a.charge ≤ 4) :
+    ∃ ra, toAtom keep n a = .ok ra ∧ ra.implicitHs = 0 ∧ ra.tag = .CHI_UNSPECIFIED ∧
+      fromAtom { ra with implicitHs := k } =
+        .ok ({ a with implH := some (h + k), stereo := none }, if keep then n else 0) := by
+  obtain ⟨z, iso, ch, rad, ih, st⟩ := a
+  simp only at hH hrow hiso hch
+  subst hH
+  have hc1 : ¬ (ch > 4) := by omega
+  have hc2 : ¬ (ch < -4) := by omega
+  cases iso with
+  | none =>
+    refine ⟨_, rfl, rfl, rfl, ?_⟩
+    by_cases h0 : ch = 0 <;> simp [fromAtom, hrow, h0, hc1, hc2] <;> cases rad <;> simp
+  | some i =>
+    obtain ⟨hi0, hid⟩ := hiso i rfl
+    refine ⟨_, rfl, rfl, rfl, ?_⟩
+    by_cases h0 : ch = 0 <;> simp [fromAtom, hrow, h0, hc1, hc2, hi0, hid] <;> cases rad <;> simp
+
+example : ∃ row, rowOf 6 = some row ∧ row.dist.any (·.1 == 13) = true := ⟨_, rfl, by decide⟩
+
+/-- RDKit → chython → RDKit on one atom: element, charge, isotope and map number survive (the map number as
+`parsed_mapping`; `to` then writes the atom *number*); the total hydrogen count `explicit + implicit` is written back as
+explicit; the radical-electron count survives iff it is at most one -/
+theorem to_from_atom (keep : Bool) (n : Nat) (ra : RAtom) (a : Atom) (pm : Nat) (h : fromAtom ra = .ok (a, pm)) :
+    pm = ra.mapNum ∧
+    toAtom keep n a = .ok { z := ra.z, explicitHs := ra.explicitHs + ra.implicitHs, implicitHs := 0, charge := ra.charge,
+                            isotope := ra.isotope, radicalE := if ra.radicalE = 0 then 0 else 1,
+                            mapNum := if keep then n else 0, tag := .CHI_UNSPECIFIED } := by
+  unfold fromAtom at h
+  split at h
+  · cases h
+  · rename_i row hrow
+    split at h
+    · cases h
+    · split at h
+      · cases h
+      · simp only [Except.ok.injEq, Prod.mk.injEq] at h
+        obtain ⟨rfl, rfl⟩ := h
+        refine ⟨rfl, ?_⟩
+        by_cases hi : ra.isotope = 0 <;> by_cases hc : ra.charge = 0 <;> by_cases hr : ra.radicalE = 0 <;>
+          simp [toAtom, hi, hc, hr]
+
+/-- the radical clause at full strength is false for diradicals (chython's `is_radical` is a flag); exactly that class is excluded -/
+def radical_roundtrip_full : Prop :=
+  ∀ (ra : RAtom) (a : Atom) (pm : Nat), fromAtom ra = .ok (a, pm) →
+    ∃ rb, toAtom false 0 a = .ok rb ∧ rb.radicalE = ra.radicalE
+
+theorem radical_roundtrip_partial (ra : RAtom) (a : Atom) (pm : Nat) (h : fromAtom ra = .ok (a, pm))
+    (hr : ra.radicalE ≤ 1) : ∃ rb, toAtom false 0 a = .ok rb ∧ rb.radicalE = ra.radicalE := by
+  obtain ⟨_, h2⟩ := to_from_atom false 0 ra a pm h
+  refine ⟨_, h2, ?_⟩
+  by_cases h0 : ra.radicalE = 0
+  · simp [h0]
+  · simp only [h0, if_false]; omega
+
+example : ∃ a pm, fromAtom { z := 6, explicitHs := 2, radicalE := 1 } = .ok (a, pm) := ⟨_, _, rfl⟩
+
+/-- error branches are raised, not defaulted: unknown hydrogen count, dummy atom, impossible isotope, charge out of range -/
+theorem atom_error_branches :
+    (∀ keep n (a : Atom), a.implH = none → toAtom keep n a = .error .argument) ∧
+    (∀ ra : RAtom, rowOf ra.z = none → fromAtom ra = .error (.py .valueError)) ∧
+    fromAtom { z := 6, isotope := 99 } = .error (.py .valueError) ∧
+    fromAtom { z := 6, charge := 5 } = .error (.py .valueError) ∧
+    fromAtom { z := 0 } = .error (.py .valueError) := by
+  refine ⟨?_, ?_, by decide, by decide, by decide⟩
+  · intro keep n a h; simp [toAtom, h]
+  · intro ra h; simp [fromAtom, h]
+
+/-! ## 4. tetrahedral configuration: written for ANY neighbour order, read back from ANY neighbour order -/
+
+/-- four heavy neighbours.  `order`/`order'` = `stereogenic_tetrahedrons[n]` of the source and of the rebuilt molecule,
+`env`/`env'` = RDKit's neighbour order when the tag is written / read (RDKit re-expresses the tag by `Rdkit.retag`).
+The label read back is `s` corrected by the parity between the two reference orders: the same configuration. -/
+theorem tag_roundtrip4 (a b c d : Nat) (hnd : [a, b, c, d].Nodup) (order order' env env' : List Nat)
+    (ho : order.Perm [a, b, c, d]) (ho' : order'.Perm [a, b, c, d]) (he : env.Perm [a, b, c, d])
+    (he' : env'.Perm [a, b, c, d]) (isH isH' : Nat → Bool) (s : Bool) :
+    ∃ t, translateTetra order env isH (some s) none = .ok t ∧
+         translateTetra order' env' isH' none (some (Rdkit.retag t (relOdd env env'))) = .ok (s ^^ relOdd order order') := by
+  obtain ⟨w, x, y, z, rfl, hn⟩ := perm4_literal hnd ho
+  obtain ⟨w', x', y', z', rfl, hn'⟩ := perm4_literal hnd ho'
+  refine ⟨s ^^ relOdd [w, x, y, z] env, ?_, ?_⟩
+  · rw [(translateTetra_sign_source _ env isH s none).1]
+    exact translateTetra_perm4 w x y z hn env (he.trans ho.symm) isH none s
+  · rw [translateTetra_perm4 w' x' y' z' hn' env' (he'.trans ho'.symm) isH' none _]
+    have key := relOdd_chain4 hnd [w, x, y, z] [w', x', y', z'] env env' ho ho' he he'
+    rw [← key]
+    simp only [Rdkit.retag]
+    generalize relOdd [w, x, y, z] env = A
+    generalize relOdd env env' = B
+    generalize relOdd [w', x', y', z'] env' = C
+    cases s <;> cases A <;> cases B <;> cases C <;> rfl
+
+example : translateTetra [7, 3, 9, 5] [3, 7, 9, 5] (fun _ => false) (some true) none = .ok false ∧
+    translateTetra [5, 9, 3, 7] [9, 3, 7, 5] (fun _ => false) none (some (Rdkit.retag false (relOdd [3, 7, 9, 5] [9, 3, 7, 5]))) =
+      .ok (true ^^ relOdd [7, 3, 9, 5] [5, 9, 3, 7]) := by decide
+
+/-- three heavy neighbours and an implicit hydrogen on both sides -/
+theorem tag_roundtrip3 (a b c : Nat) (hnd : [a, b, c].Nodup) (order order' env env' : List Nat)
+    (ho : order.Perm [a, b, c]) (ho' : order'.Perm [a, b, c]) (he : env.Perm [a, b, c]) (he' : env'.Perm [a, b, c])
+    (isH isH' : Nat → Bool) (s : Bool) :
+    ∃ t, translateTetra order env isH (some s) none = .ok t ∧
+         translateTetra order' env' isH' none (some (Rdkit.retag t (relOdd env env'))) = .ok (s ^^ relOdd order order') := by
+  obtain ⟨x, y, z, rfl, hn⟩ := perm3_literal hnd ho
+  obtain ⟨x', y', z', rfl, hn'⟩ := perm3_literal hnd ho'
+  refine ⟨s ^^ relOdd [x, y, z] env, ?_, ?_⟩
+  · rw [(translateTetra_sign_source _ env isH s none).1]
+    exact translateTetra_implicitH x y z hn env (he.trans ho.symm) isH none s
+  · rw [translateTetra_implicitH x' y' z' hn' env' (he'.trans ho'.symm) isH' none _]
+    have key := relOdd_chain3 hnd [x, y, z] [x', y', z'] env env' ho ho' he he'
+    rw [← key]
+    simp only [Rdkit.retag]
+    generalize relOdd [x, y, z] env = A
+    generalize relOdd env env' = B
+    generalize relOdd [x', y', z'] env' = C
+    cases s <;> cases A <;> cases B <;> cases C <;> rfl
+
+/-- three heavy neighbours and an explicit hydrogen atom `h` standing anywhere in RDKit's neighbour lists -/
+theorem tag_roundtrip_explicitH (a b c h : Nat) (hnd : [a, b, c].Nodup) (isH : Nat → Bool)
+    (hheavy : ∀ v ∈ [a, b, c], isH v = false) (hh : isH h = true) (order order' env env' : List Nat)
+    (ho : order.Perm [a, b, c]) (ho' : order'.Perm [a, b, c]) (he : env.Perm [a, b, c, h]) (he' : env'.Perm [a, b, c, h])
+    (s : Bool) :
+    ∃ t, translateTetra order env isH (some s) none = .ok t ∧
+         translateTetra order' env' isH none (some (Rdkit.retag t (relOdd env env'))) = .ok (s ^^ relOdd order order') := by
+  have hah : h ≠ a := fun e => by rw [e, hheavy a (by simp)] at hh; cases hh
+  have hbh : h ≠ b := fun e => by rw [e, hheavy b (by simp)] at hh; cases hh
+  have hch : h ≠ c := fun e => by rw [e, hheavy c (by simp)] at hh; cases hh
+  have hf := nodup4_of_fresh hnd hah hbh hch
+  obtain ⟨x, y, z, rfl, hn⟩ := perm3_literal hnd ho
+  obtain ⟨x', y', z', rfl, hn'⟩ := perm3_literal hnd ho'
+  have mem : ∀ v ∈ [x, y, z], isH v = false := fun v hv => hheavy v (ho.subset hv)
+  have mem' : ∀ v ∈ [x', y', z'], isH v = false := fun v hv => hheavy v (ho'.subset hv)
+  have p4 : [x, y, z, h].Perm [a, b, c, h] := perm_append_single h ho
+  have p4' : [x', y', z', h].Perm [a, b, c, h] := perm_append_single h ho'
+  refine ⟨s ^^ relOdd [x, y, z, h] env, ?_, ?_⟩
+  · rw [(translateTetra_sign_source _ env isH s none).1]
+    exact translateTetra_explicitH x y z h hn (mem x (by simp)) (mem y (by simp)) (mem z (by simp)) hh env
+      (he.trans p4.symm) none s
+  · rw [translateTetra_explicitH x' y' z' h hn' (mem' x' (by simp)) (mem' y' (by simp)) (mem' z' (by simp)) hh env'
+      (he'.trans p4'.symm) none _]
+    have key := relOdd_chain4 hf [x, y, z, h] [x', y', z', h] env env' p4 p4' he he'
+    have lift := relOdd_lift3 hnd h hf [x, y, z] [x', y', z'] ho ho'
+    simp only [List.cons_append, List.nil_append] at lift
+    rw [lift, ← key]
+    simp only [Rdkit.retag]
+    generalize relOdd [x, y, z, h] env = A
+    generalize relOdd env env' = B
+    generalize relOdd [x', y', z', h] env' = C
+    cases s <;> cases A <;> cases B <;> cases C <;> rfl
+
+example : translateTetra [7, 3, 9] [3, 1, 7, 9] (fun x => x == 1) (some true) none = .ok false := by decide
+
+/-- the tag the model sets is the documented tag of the translated sign; nothing is set for an unlabelled atom or for
+an atom outside `stereogenic_tetrahedrons` (allene centres) -/
+theorem toTag_spec (m : Mol) (env : StereoEnv) (ids : List Nat) (bonds : List RBond) (i n : Nat) (a : Atom) :
+    (a.stereo = none → toTag m env ids bonds i n a = .ok none) ∧
+    (env.stet.lookup n = none → toTag m env ids bonds i n a = .ok none) ∧
+    (∀ s order nb t, a.stereo = some s → env.stet.lookup n = some order → nbrNumbers ids bonds i = .ok nb →
+      translateTetra order nb (isHOf m) (some s) none = .ok t →
+      toTag m env ids bonds i n a = .ok (some (Rdkit.tagOfAt t))) := by
+  refine ⟨?_, ?_, ?_⟩
+  · intro h; simp [toTag, h]
+  · intro h; cases hs : a.stereo <;> simp [toTag, hs, h]
+  · intro s order nb t hs ho hn ht
+    simp [toTag, hs, ho, hn, ht, liftPy, bind, Except.bind, pure, Except.pure, (constants_agree_spec t).1]
+
+/-! ## 5. double-bond configuration -/
+
+/-- `to` writes the first neighbours `(n0, n1)` as stereo atoms and Z for label `True`.  RDKit may choose other stereo
+atoms `x` (slot `k0` at the begin end), `y` (slot `k1` at the end end) and re-expresses the label by `Rdkit.relabel`;
+`from` reads it against the environment `e'` of the rebuilt molecule where `x`, `y` occupy slots `k0'`, `k1'`.
+The label read back differs from `s` exactly by the number of ends whose first neighbour changed: the same geometry. -/
+theorem ez_roundtrip (e' : Ends) (isH : Nat → Bool) (wf' : EndsWF e' isH) (x y k0 k1 k0' k1' : Nat)
+    (hk0 : k0 = 0 ∨ k0 = 2) (hk1 : k1 = 1 ∨ k1 = 3) (hk0' : k0' = 0 ∨ k0' = 2) (hk1' : k1' = 1 ∨ k1' = 3)
+    (sx' : IsSlot e' isH k0' x) (sy' : IsSlot e' isH k1' y) (s : Bool) :
+    translateEnds e' isH x y (Rdkit.relabel s (k0 == 2) (k1 == 3)) =
+      .ok (s ^^ ((k0 == 2) != (k0' == 2)) ^^ ((k1 == 3) != (k1' == 3))) := by
+  rw [translateEnds_slots e' isH wf' k0' k1' x y hk0' hk1' sx' sy']
+  rcases hk0 with rfl | rfl <;> rcases hk1 with rfl | rfl <;> rcases hk0' with rfl | rfl <;> rcases hk1' with rfl | rfl <;>
+    cases s <;> rfl
+
+/-- with RDKit leaving the stereo atoms alone and the same environment on both sides the label is returned unchanged -/
+theorem ez_roundtrip_same (e : Ends) (isH : Nat → Bool) (wf : EndsWF e isH) (s : Bool) :
+    translateEnds e isH e.n0 e.n1 s = .ok s := by
+  have := ez_roundtrip e isH wf e.n0 e.n1 0 1 0 1 (Or.inl rfl) (Or.inl rfl) (Or.inl rfl) (Or.inl rfl) rfl rfl s
+  simpa [Rdkit.relabel] using this
+
+/-- `from` finds the environment under either orientation of RDKit's bond: `(begin, end)` or `(end, begin)` with the
+stereo atoms exchanged accordingly -/
+theorem from_cis_trans_key (sct : List ((Nat × Nat) × Ends)) (isH : Nat → Bool) (n m x y : Nat) (z : Bool) (e : Ends) :
+    (sct.lookup (n, m) = some e → translateCisTrans sct isH n m x y none (some z) = translateEnds e isH x y z) ∧
+    (sct.lookup (n, m) = none → sct.lookup (m, n) = some e →
+      translateCisTrans sct isH n m x y none (some z) = translateEnds e isH y x z) ∧
+    (sct.lookup (n, m) = none → sct.lookup (m, n) = none →
+      translateCisTrans sct isH n m x y none (some z) = .error .keyError) := by
+  refine ⟨?_, ?_, ?_⟩
+  · intro h; simp [translateCisTrans, h, pickSign, bind, Except.bind]
+  · intro h1 h2; simp [translateCisTrans, h1, h2, getKey, pickSign, bind, Except.bind]
+  · intro h1 h2; simp [translateCisTrans, h1, h2, getKey, bind, Except.bind]
+
+/-- what the cis-trans loop of `to` writes for one labelled simple double bond: stereo atoms = indices of the first
+neighbours, stereo = the documented Z/E of the label; unlabelled bonds, bonds outside `_stereo_cis_trans_centers` and
+cumulated chains (the central pair is not the bond itself) are left alone -/
+theorem toBondStereo_spec (env : StereoEnv) (ids : List Nat) (n k : Nat) (b : Bond) :
+    (b.stereo = none → toBondStereo env ids (n, k, b) = .ok none) ∧
+    (env.centers.lookup n = none → toBondStereo env ids (n, k, b) = .ok none) ∧
+    (∀ s e i j s0 s1, b.stereo = some s → env.centers.lookup n = some (n, k) → env.sct.lookup (n, k) = some e →
+      idxOf ids n = .ok i → idxOf ids k = .ok j → idxOf ids e.n0 = .ok s0 → idxOf ids e.n1 = .ok s1 →
+      toBondStereo env ids (n, k, b) = .ok (some (i, j, Rdkit.stereoOfCis s, (s0, s1)))) := by
+  refine ⟨?_, ?_, ?_⟩
+  · intro h; simp [toBondStereo, h, pure, Except.pure]
+  · intro h; cases hs : b.stereo <;> simp [toBondStereo, hs, h, pure, Except.pure]
+  · intro s e i j s0 s1 hs hc he hi hj h0 h1
+    simp [toBondStereo, hs, hc, he, hi, hj, h0, h1, getKey, liftPy, bind, Except.bind, pure, Except.pure,
+      (constants_agree_spec s).2]
+
+/-! ## 6. dative direction -/
+
+/-- a bond between a metal (symbol outside `_inorganic`) and a non-metal is always handed to RDKit as
+non-metal → metal, whichever end `bonds()` yields first: the donor is the begin atom as RDKit's `DATIVE` requires -/
+theorem dative_direction (m : Mol) (metal donor : Nat) (hm : inorganicZ.contains (zOf m metal) = false)
+    (hd : inorganicZ.contains (zOf m donor) = true) :
+    orient m metal donor = (donor, metal) ∧ orient m donor metal = (donor, metal) := by
+  constructor
+  · simp only [orient, hm]; rfl
+  · simp only [orient, hd]; rfl
+
+/-- the rule only ever exchanges the two ends: the undirected bond is unchanged -/
+theorem orient_same_bond (m : Mol) (n k : Nat) : orient m n k = (n, k) ∨ orient m n k = (k, n) := by
+  unfold orient; split <;> simp
+
+/-- `_inorganic`, as atomic numbers, is exactly the set the source lists (noble gases He–Xe, halogens F–I, C N O H, Si P S Se Ge As Sb Te) -/
+theorem inorganic_table : inorganicZ = [1, 2, 6, 7, 8, 9, 10, 14, 15, 16, 17, 18, 32, 33, 34, 35, 36, 51, 52, 53, 54] ∧
+    inorganic.length = inorganicZ.length := by decide
+
+/-! ## 7. shape of the converted molecules: atom order, map numbers, coordinates, neighbour order -/
+
+/-- `to`: one RDKit atom per chython atom in `_atoms` order (so `mapping[n]` is the position of `n`), one bond per
+`bonds()` entry, and the first conformer carries exactly the `xy` of the atoms in that order -/
+theorem to_shape (c : CMol) (env : StereoEnv) (keep : Bool) (r : RMol) (h : toRdWith c env keep = .ok r) :
+    r.atoms.length = c.mol.atoms.length ∧ r.bonds.length = c.mol.bonds.length ∧ r.pos = some c.xy := by
+  simp only [toRdWith, bind, Except.bind] at h
+  split at h
+  · cases h
+  · rename_i atoms0 h0
+    split at h
+    · cases h
+    · rename_i bonds0 hb0
+      split at h
+      · cases h
+      · rename_i atoms1 h1
+        split at h
+        · cases h
+        · rename_i bonds1 hb1
+          simp only [pure, Except.pure, Except.ok.injEq] at h
+          subst h
+          refine ⟨?_, ?_, rfl⟩
+          · simp only
+            rw [setTags_length _ _ _ _ _ _ _ _ h1]
+          · simp only
+            rw [setBondStereo_length _ _ _ _ _ hb1, mapM_ok_length _ _ _ hb0]
+
+/-- `from`: atoms are numbered 1..N in RDKit index order, `parsed_mapping` is the RDKit map number, the coordinates are
+those of the first conformer, and the neighbour dict of atom `i + 1` lists RDKit's neighbours of atom `i` in RDKit's
+bond order — so `stereogenic_tetrahedrons` of the new molecule is RDKit's own neighbour order without hydrogens -/
+theorem from_shape (r : RMol) (nbrs : List (List Nat)) (c : CMol) (tet : List (Nat × List Nat × Bool))
+    (ct : List (Nat × Nat × Nat × Nat × Bool)) (h : fromGraph r nbrs = .ok (c, tet, ct)) :
+    c.mol.ids = (List.range r.atoms.length).map (· + 1) ∧
+    c.pmap = r.atoms.map (·.mapNum) ∧
+    (∀ p, r.pos = some p → p.length = r.atoms.length → c.xy = p) ∧
+    (∀ i, i < r.atoms.length → (c.mol.nbrs (i + 1)).map (·.1) = (rNbrs r.bonds i).map (· + 1)) := by
+  simp only [fromGraph, bind, Except.bind] at h
+  split at h
+  · cases h
+  · rename_i as has
+    split at h
+    · cases h
+    · rename_i v hv
+      obtain ⟨adj, ct1⟩ := v
+      simp only [pure, Except.pure, Except.ok.injEq, Prod.mk.injEq] at h
+      obtain ⟨rfl, _, _⟩ := h
+      have hlen := mapM_ok_length _ _ _ has
+      refine ⟨?_, ?_, ?_, ?_⟩
+      · simp only [Mol.ids, hlen]
+        rw [List.map_fst_zip]
+        simp [hlen]
+      · exact mapM_fromAtom_pmap _ _ has
+      · intro p hp hl
+        simp only [hp, hlen, ← hl]
+        exact range_getD_eq (0, 0) p
+      · intro i hi
+        have key := fromBonds_lookup r.bonds _ adj [] ct1 hv (i + 1)
+        rw [hlen, lookup_zip_range r.atoms.length (i + 1) ⟨by omega, by omega⟩] at key
+        simp only [Option.map_some, List.map_nil, List.nil_append] at key
+        rw [nbrsAt_eq_rNbrs] at key
+        simp only [Mol.nbrs]
+        cases hl : adj.lookup (i + 1) with
+        | none => simp [hl] at key
+        | some l =>
+          simp only [hl, Option.map_some, Option.some.injEq] at key
+          simpa using key
+
+/-- consequence of `from_shape`: without explicit hydrogens the reference order of the rebuilt molecule *is* RDKit's
+neighbour order, so `from` stores exactly "the tag is the `@` tag" (no translation happens) -/
+theorem from_label_is_tag (env : List Nat) (hl : env.length = 3 ∨ env.length = 4) (hnd : env.Nodup)
+    (isH : Nat → Bool) (s : Bool) : translateTetra env env isH none (some s) = .ok s := by
+  rcases hl with hl | hl
+  · match env, hl with
+    | [x, y, z], _ =>
+      have := translateTetra_implicitH x y z hnd [x, y, z] (List.Perm.refl _) isH none s
+      rw [this]
+      have h0 : relOdd [x, y, z] [x, y, z] = false := by
+        obtain ⟨h, ha, hb, hc⟩ := fresh3 x y z
+        have hf := nodup4_of_fresh hnd ha hb hc
+        rw [relOdd_lift3 hnd h hf [x, y, z] [x, y, z] (List.Perm.refl _) (List.Perm.refl _)]
+        exact relOdd_self4 hf _ (List.Perm.refl _)
+      simp [h0]
+  · match env, hl with
+    | [w, x, y, z], _ =>
+      have := translateTetra_perm4 w x y z hnd [w, x, y, z] (List.Perm.refl _) isH none s
+      rw [this, relOdd_self4 hnd _ (List.Perm.refl _)]
+      simp
 
 end ChythonModel.Props.C20
